@@ -146,6 +146,10 @@ func c18Canon(x interface{}) interface{} {
 	return x
 }
 
+// A BulkAdd call that has not returned after this long counts as hung.  Generous: the machine
+// may be heavily loaded; a reported hang is re-run once in a fresh worker before it is believed.
+const c18HangTimeout = 90 * time.Second
+
 type c18Worker struct {
 	w    *C03World
 	work string
@@ -223,7 +227,7 @@ func (cw *c18Worker) run(c c18Case) (out map[string]interface{}, tainted bool) {
 		default:
 			res = map[string]interface{}{"ins": fs.res.InsertCount, "err": fs.res.ErrorCount}
 		}
-	case <-time.After(20 * time.Second):
+	case <-time.After(c18HangTimeout):
 		res, tainted = "hang", true
 	}
 	if tainted {
@@ -269,6 +273,7 @@ func c18WorkerMain(r *Run, ops []map[string]interface{}) {
 func c18RunCases(r *Run, cases []c18Case) []map[string]interface{} {
 	results := make([]map[string]interface{}, 0, len(cases))
 	spawn := 0
+	retried := map[int]bool{}
 	for len(results) < len(cases) {
 		rest := cases[len(results):]
 		if len(rest) > 400 {
@@ -299,6 +304,15 @@ func c18RunCases(r *Run, cases []c18Case) []map[string]interface{} {
 		err := cmd.Run()
 		logf.Close()
 		got, _ := ReadOps(filepath.Join(dir, "results.jsonl"))
+		if n := len(got); n > 0 && got[n-1]["res"] == "hang" && !retried[len(results)+n-1] {
+			// a hang is believed only when it happens twice
+			retried[len(results)+n-1] = true
+			r.Count("hang_retried")
+			got = got[:n-1]
+			results = append(results, got...)
+			os.Remove(in)
+			continue
+		}
 		results = append(results, got...)
 		if len(got) < len(rest) {
 			last := ""
@@ -392,7 +406,7 @@ func c18Batch(op map[string]interface{}) (out map[string]interface{}) {
 		mu.Lock()
 		defer mu.Unlock()
 		return map[string]interface{}{"vcalls": vcalls, "ecalls": ecalls, "err": o.err != nil}
-	case <-time.After(20 * time.Second):
+	case <-time.After(c18HangTimeout):
 		return map[string]interface{}{"res": "hang"}
 	}
 }
